@@ -5,11 +5,19 @@ tables), (b) a small crate that reads real objects as raw words (dynamic layout)
     render_layout.py <layout.jsonl> <out_dir>"""
 import json, os, sys
 
-BODY = {"zz": 11, "aa": 12, "mm": 13, "b1": 21, "a2": 22, "only": 31, "q": 41, "p": 42, "r": 43, "o": 44, "s": 45, "tb1": 51, "ta2": 61, "ta1": 62}
+BODY = {"n1": 71, "vo_a": 72, "n2": 73, "sk_b": 74, "n3": 75, "vo_c": 76, "n4": 77, "zz": 11, "aa": 12, "mm": 13, "b1": 21, "a2": 22, "only": 31, "q": 41, "p": 42, "r": 43, "o": 44, "s": 45, "tb1": 51, "ta2": 61, "ta1": 62}
+
+
+def method_decl(m):
+    if m.startswith("vo_"):
+        return "        #[vtbl_only]\n        fn %s(&self) -> u64 { 0 }" % m
+    if m.startswith("sk_"):
+        return "        #[skip_func]\n        fn %s(&self) -> u64 { 0 }" % m
+    return "        fn %s(&self) -> u64;" % m
 
 
 def trait_src(name, methods):
-    ms = "\n".join("        fn %s(&self) -> u64;" % m for m in methods)
+    ms = "\n".join(method_decl(m) for m in methods)
     return "#[cglue_trait]\npub trait %s {\n%s\n}\n" % (name, ms)
 
 
@@ -29,11 +37,12 @@ def main():
     out = sys.argv[2]
     os.makedirs(os.path.join(out, "src"), exist_ok=True)
     traits = data["traits"]
+    decls = data.get("decls", traits)
     groups = sorted(data["groups"], key=lambda g: json.dumps(g, sort_keys=True))
     # (a) static: one module per trait, one per group listing
     parts = ["pub use cglue::prelude::v1::*;\npub use cglue::*;\n"]
     for t, ms in sorted(traits.items()):
-        parts.append("pub mod t_%s {\n    use super::*;\n    %s}\n" % (t.lower(), trait_src(t, ms).replace("\n", "\n    ")))
+        parts.append("pub mod t_%s {\n    use super::*;\n    %s}\n" % (t.lower(), trait_src(t, decls[t]).replace("\n", "\n    ")))
     for k, g in enumerate(groups):
         uses = "\n".join("    use super::t_%s::*;" % t.lower() for t in sorted(traits))
         parts.append("pub mod g%d {\n    use super::*;\n%s\n    %s\n}\n" % (k, uses, group_macro("G", g["listing"])))
@@ -45,9 +54,9 @@ def main():
     src = ["#![allow(unused, non_snake_case, clippy::all)]\nuse cglue::prelude::v1::*;\nuse cglue::*;\nuse cglue::trait_group::*;\n"
            "#[repr(C)] pub struct L { pub tag: u64 }\n#[repr(C)] pub struct L2 { pub tag: u64 }\n"]
     for t, ms in sorted(traits.items()):
-        src.append(trait_src(t, ms))
-        src.append(impl_src("L", t, ms))
-        src.append(impl_src("L2", t, ms))
+        src.append(trait_src(t, decls[t]))
+        src.append(impl_src("L", t, decls[t]))
+        src.append(impl_src("L2", t, decls[t]))
     checks = []
     # vtables: word k of the vtable behind word 0 of the object == getter of the k-th declared method
     for t, ms in sorted(traits.items()):
